@@ -100,6 +100,11 @@ CHECKS = {
          'every AST of the parser family is rendered for all five libraries under the default rendering and every single deviation of 14 rendering options (all pairs in the thorough tier), '
          'with and without branch forks, parsed, resolved and compared by port order and truth table with the AST; primitive-only ASTs additionally through the bench format and across formats',
          'trusted: renderer (mc/render.py) and reference evaluator; a bounded set of rendering deviations, not all texts', 'DESIGN.md section 4 C11'),
+
+ 'C14': ('exploration', 'bounded enumeration of SDF ASTs x designs vs. expected delay array',
+         'for 3 libraries x 5 small designs x branchforks x escaped names: all subsets and (<= 4 entries) all orders of IOPATH entries, every single deviation of edge qualifier and value form per entry, '
+         'duplicates, three CELL groupings incl. repeated blocks, interconnect entries in one/several top-level blocks incl. zero-valued; parsed arrays compared element by element with the array built from the AST',
+         'trusted: SDF renderer and expected-array builder in checks/c14.py; library pin tables (C19)', 'DESIGN.md section 4 C14'),
 }
 
 NOT_YET = 'check under construction in this session (see DESIGN.md build order); will be claimed once its exhaustive check exists'
